@@ -264,7 +264,7 @@ def gen_script(rng, model, cls, libsizes, deep, budget):
 SAN_RE = re.compile(r"ERROR: AddressSanitizer|ERROR: LeakSanitizer|runtime error:|SUMMARY: \w+Sanitizer")
 
 
-def run_impl(c_exe, lines, timeout=600):
+def run_impl(c_exe, lines, timeout=180):
     rc, o, e = vlib.run_driver(c_exe, "\n".join(lines) + "\n", timeout=timeout)
     return rc, o.splitlines(), e
 
